@@ -73,6 +73,11 @@ ScenC15 == {Plain(<<dc>>) : dc \in C15Docs}
                         ELSE CramKind(names[x], Ids[1][x])])>>) :
                      p \in 0..3, how \in {"exit", "exitscript"}, names \in [1..3 -> {"pass", "failout"}]}
 
+\* Markdown documents run with --cram-compat: the script executor must honour the Markdown-only ways to set the skip code
+Combined(dc) == [dc EXCEPT !.tests = [x \in 1..Len(dc.tests) |-> [dc.tests[x] EXCEPT !.stream = "combined"]]]
+C15Compat == {[Plain(<<Combined(C15Doc(p, cfg, exp, others))>>) EXCEPT !.compat = TRUE] :
+                  p \in 0..3, cfg \in {"def", "docdef", "inline", "decoy"}, exp \in {None, 80}, others \in {[x \in 1..3 |-> "pass"], [x \in 1..3 |-> "failout"]}}
+
 \* ---- C20: several documents, shared prepend / append documents, detached, skip, signal, faults, Markdown and Cram
 C20Kinds  == {"pass", "failout", "failcode", "det", "skip80", "sig_noexp"}
 C20Cram   == {"pass", "failout", "failcode", "skip80"}
@@ -110,8 +115,16 @@ SharedAndTimeout ==
          None, pre, app, via, FALSE) :
         n1 \in {"pass", "failcode", "failout"}, tfm \in {None}, t \in {1},
         pre \in {<<Kind("pass", "p1")>>, <<Kind("failout", "p1")>>}, app \in {<<>>, <<Kind("pass", "a1")>>}, via \in {"cli", "fm"}}
-Scenarios == CASE Focus = "C05" -> ScenC05 \cup SharedAndTimeout [] Focus = "C14" -> ScenC14 [] Focus = "C15" -> ScenC15
-               [] Focus = "C20" -> ScenC20 \cup SharedAndTimeout
+\* a detached test case (no result of its own) before a test case that cuts the document short: results must stay aligned
+CutTc(x, id) == CASE x = "slow" -> Tc(id, "exit", 0, 3, None, "none", "stdout", "none", 1, FALSE, None)
+                  [] OTHER -> Kind(x, id)
+DetachedAndCut(cuts) ==
+    {Run(<<Doc("md", None, None, "no", tests)>>, None, <<>>, <<>>, "cli", FALSE) :
+        tests \in UNION {{<<Kind("det", "d1t1"), CutTc(x, "d1t2"), Kind("pass", "d1t3")>>,
+                          <<Kind(n1, "d1t1"), Kind("det", "d1t2"), CutTc(x, "d1t3")>>} : x \in cuts, n1 \in {"pass", "failout"}}}
+Scenarios == CASE Focus = "C05" -> ScenC05 \cup SharedAndTimeout \cup DetachedAndCut({"slow", "sig_noexp", "failcode"})
+               [] Focus = "C14" -> ScenC14 \cup DetachedAndCut({"slow"}) [] Focus = "C15" -> ScenC15 \cup DetachedAndCut({"skip80"}) \cup C15Compat
+               [] Focus = "C20" -> ScenC20 \cup SharedAndTimeout \cup DetachedAndCut({"slow", "sig_noexp", "skip80", "failout"})
 
 Init == /\ sc \in Scenarios
         /\ d = 1 /\ k = 1 /\ clock = 0 /\ lim = None /\ isGlobal = FALSE /\ status = "-"
